@@ -5,9 +5,30 @@ from lib.vlib import *
 
 META = {
     "property_id": "C16",
-    "technique": "Coq proof over a Gallina model of diff/*.go and function.go:diffEnv + exhaustive small-pair correspondence",
-    "level_text": "TBD",
-    "level_note": "TBD",
+    "technique": "Coq proof over a Gallina model of diff/diff.go, diff_slice.go, types.go and function.go:diffEnv "
+                 "+ exhaustive small-pair correspondence of the complete diff tree + Go-side reconstruction oracle",
+    "level_text": "Theorems (Coq, all inputs, closed under the global context): DiffDepth returns no diff iff EqualDepth says "
+                  "equal; otherwise Old()/New() are the two arguments in the order given; for sequences of ANY relative "
+                  "lengths the edit script produced by diffSlice (O(NP) search incl. the swap-to-shorter-first, the restart "
+                  "after a route-table exhaustion, recordSeq/extend and the delete+add->replace merge) has old projection = "
+                  "old elements and new projection = new elements up to EqualDepth, in order (two layers: record_faithful for "
+                  "any valid path and either swap orientation, search_valid for the search; route_table_suffices: no "
+                  "exhaustion when (m+1)(n+1) <= 2000000); the reported edits show the parts of that script; for mappings an "
+                  "edit exists exactly for each key removed/changed/added with the right kind and values and none for an "
+                  "unchanged key; the rebuild reason names a functionEnvKeys entry iff the environments differ at it (all 2^9 "
+                  "subsets swept in Coq and lifted). seq_replacements_carry_sides_refuted: a replace entry can be None (known "
+                  "finding). The model is tied to the code by comparing the complete diff tree (kinds, splits, payloads, nested "
+                  "diffs, dict edit order, Old/New) on every pair of sequences over 3 letters up to length 4 (quick) / 5 "
+                  "(thorough) as tuples, <=3/4 as lists, strings, bytes, mixed containers, nested tuples, dict pairs, depth-limit "
+                  "cases, random longer sequences, and diffEnv on all subsets of the listed keys.",
+    "level_note": "Trusted: Coq kernel; the Go harness's rendering of values and diffs; starlark's EqualDepth/Index/Slice are "
+                  "modelled for None/int/string/bytes/tuple/list/dict only (no floats, sets, user types) and validated by the "
+                  "sweep. Theorems are conditional on the model returning Ok: Panic/OutOfFuel outcomes (never observed in the "
+                  "sweep; totality not proved) and EqualDepth depth errors are excluded by statement. Absence of None entries in "
+                  "replace payloads holds only for minimal scripts (not proved; swept) and fails after route-table exhaustion "
+                  "(known finding, shown on the real code by a crafted 1500x1700 pair). Pickle stamps in diffEnv are an input "
+                  "(stamp_state). The multi-round part of the model was additionally validated once by a what-if run with "
+                  "defaultRouteSize=6 (0 mismatches on 40 845 cases).",
     "design_ref": "DESIGN.md §6 C16",
 }
 
